@@ -1601,6 +1601,8 @@ void eval_instruction (const char *p) {
 
             arr = s->u.arr;
             n = arr->size;
+            if (n > 1)
+              STACK_CHECK (n - 1);
             num_varargs += n - 1;
             if (!n)
               {
